@@ -142,11 +142,85 @@ def retag_only(before, after):
     return any_diff
 
 
+# ------------------------------------------------------------------ wall-clock budget (the check must always terminate)
+import time as _time
+PHASE_BUDGET = {'quick': 150.0, 'thorough': 720.0}       # seconds of generation + oracle work (Coq time not included)
+MAX_VIOLATIONS = 40                                       # enough concrete inputs: stop generating
+
+
+class Budget:
+    def __init__(self, ctx):
+        self.ctx = ctx
+        self.t0 = _time.time()
+        self.limit = PHASE_BUDGET.get(ctx.tier, 150.0)
+        self.stopped = None
+
+    def stop(self, where):
+        """True when generation has to stop: enough violations collected, or the time budget is used up"""
+        if self.stopped:
+            return True
+        if len(self.ctx.violations) >= MAX_VIOLATIONS:
+            self.stopped = 'enough violations (%d) collected, stopped in %s' % (len(self.ctx.violations), where)
+        elif _time.time() - self.t0 > self.limit:
+            self.stopped = 'time budget of %.0f s used up in %s' % (self.limit, where)
+        if self.stopped:
+            self.ctx.log('generation stopped: ' + self.stopped)
+            self.ctx.cov['generation_stopped'] = self.stopped
+        return bool(self.stopped)
+
+
 # ------------------------------------------------------------------ the direct oracle (property on the implementation alone)
 class Oracle:
     def __init__(self, ctx):
         self.ctx = ctx
         self.n = 0
+        self.budget = Budget(ctx)
+        self.baseline = {}          # class -> what a fresh default-constructed instance encodes to (bytes, or the exception name)
+
+    # -- state shared BETWEEN instances / calls (class attributes, mutable default arguments, module-level caches)
+    def default_encoding(self, cls):
+        try:
+            x = cls()
+        except Exception as e:
+            return 'ctor:' + type(e).__name__
+        w, exc = impl_write_exc(x, 14)
+        return w if w is not None else 'write:' + (exc or '').split(':')[0]
+
+    def take_baseline(self):
+        for _, name, c, _ in all_struct_classes():
+            self.baseline[c] = self.default_encoding(c)
+
+    def fresh_instances_unchanged(self, cname, v, bs, obj):
+        """decoding bs must not have changed what a fresh default instance of any class involved encodes to"""
+        for t in {type(o) for o in graph(obj).values()}:
+            if t in self.baseline:
+                now = self.default_encoding(t)
+                if now != self.baseline[t]:
+                    self.fail(cname, v, 'fresh-instance-changed', bs,
+                              {'steps': ['x = %s(); a = write(x, 1.4)' % t.__name__,
+                                         'decode the input with %s under KMIP %s' % (cname, v),
+                                         'y = %s(); b = write(y, 1.4); a != b' % t.__name__],
+                               'affected_class': t.__name__,
+                               'before': self.baseline[t].hex() if isinstance(self.baseline[t], bytes) else self.baseline[t],
+                               'after': now.hex() if isinstance(now, bytes) else now},
+                              {'affected_class': t.__name__})
+                    self.baseline[t] = now          # report each change once
+                    return False
+        return True
+
+    def decoding_twice_agrees(self, cname, cls, v, bs, obj, w):
+        """decoding the same bytes a second time (fresh object) gives an equal value and the same re-encoding"""
+        again, r = impl_read(cls, bs, v)
+        if again is None:
+            self.fail(cname, v, 'decoding-twice-differs', bs, {'steps': ['decode the input', 'decode the input again'], 'second': 'refused: ' + r})
+            return False
+        w2 = impl_write(again, v)
+        if w2 != w or same_obj(obj, again) is False:
+            self.fail(cname, v, 'decoding-twice-differs', bs,
+                      {'steps': ['a = decode(input); wa = write(a)', 'b = decode(input) with a fresh %s; wb = write(b)' % cname, 'wa != wb or a != b'],
+                       'first_reencoding': w.hex(), 'second_reencoding': w2.hex() if w2 else None})
+            return False
+        return True
 
     def fail(self, cname, v, check, bs, detail, extra=None):
         sig = {'class': cname, 'check': check}
@@ -163,6 +237,8 @@ class Oracle:
         w, exc = impl_write_exc(obj, v)
         if w is None:
             return self.fail(cname, v, 'decoded-value-cannot-be-encoded', bs, exc)
+        if not self.decoding_twice_agrees(cname, cls, v, bs, obj, w) or not self.fresh_instances_unchanged(cname, v, bs, obj):
+            return 'new'        # state leaks between instances: everything after this point would be contaminated
         if valid and rest == b'' and w != bs:
             self.fail(cname, v, 'write(read(b))!=b', bs, {'rewritten': w.hex()})
         w2 = impl_write(obj, v)
@@ -254,6 +330,8 @@ class Oracle:
         back, r = impl_read(cls, w, v)
         if back is None or r != b'':
             self.fail(cname, v, 'read(write(x)):rejected', w, dict(witness, exc=r if back is None else 'leftover'), {'path': 'constructed'})
+            return w
+        if not self.decoding_twice_agrees(cname, cls, v, w, back, impl_write(back, v)) or not self.fresh_instances_unchanged(cname, v, w, back):
             return w
         if same_obj(x, back) is False:
             self.fail(cname, v, 'read(write(x))!=x', w, dict(witness, x=repr(x)[:300], decoded=repr(back)[:300]), {'path': 'constructed'})
@@ -430,6 +508,8 @@ def struct_cases(ctx, doc, oracle, only=None):
             continue
         if 'stub' in cdoc.get('flags', []):
             continue            # a Struct subclass without read/write of its own: tied only as the last item of its parents
+        if oracle.budget.stop('the structure generator (class %s)' % cname):
+            break
         cls = real_class(cdoc)
         tag = cdoc['default_tag']
         rng = ctx.subrng('struct/' + cname)
@@ -438,6 +518,8 @@ def struct_cases(ctx, doc, oracle, only=None):
         supported = schema.versions_of(cname)
         groups = schema.distinct_versions(cname)
         for v in sg.VERSIONS:
+            if oracle.budget.stop('the structure generator (class %s, version %d)' % (cname, v)):
+                break
             if v not in supported:
                 # below the class-level minimum version: the code raises VersionNotSupported on everything, the model
                 # (c_minver) refuses everything: tie it with the empty structure and with encodings valid for the first
@@ -659,6 +741,8 @@ def harvested_oracle(ctx, oracle, t_classes):
     n_blobs = n_acc = 0
     quick = ctx.tier == 'quick'
     for f, b in blobs:
+        if getattr(oracle, 'budget', None) is not None and oracle.budget.stop('the harvested encodings'):
+            break
         tag = int.from_bytes(b[:3], 'big')
         cands = by_tag.get(tag, [])
         if tag in payload_tags:
@@ -955,15 +1039,20 @@ def constructed_objects(ctx, oracle):
             authentication=contents.Authentication(credentials=[objects.Credential(enums.CredentialType.USERNAME_AND_PASSWORD, objects.UsernamePasswordCredential('u', 'p'))]))),
             [v], 'RequestMessage(Create + Activate, authentication, max response size 0) under version %d' % v))
         out.append(('ResponseMessage', (lambda v=v: messages.ResponseMessage(
-            response_header=messages.ResponseHeader(protocol_version=contents.ProtocolVersion(v // 10, v % 10), time_stamp=contents.TimeStamp(0), batch_count=contents.BatchCount(2)),
+            response_header=messages.ResponseHeader(protocol_version=contents.ProtocolVersion(v // 10, v % 10), time_stamp=contents.TimeStamp(0), batch_count=contents.BatchCount(3)),
             batch_items=[messages.ResponseBatchItem(operation=contents.Operation(enums.Operation.DESTROY), result_status=contents.ResultStatus(enums.ResultStatus.SUCCESS),
                                                     response_payload=payloads.DestroyResponsePayload(attributes.UniqueIdentifier('1'))),
+                         messages.ResponseBatchItem(operation=contents.Operation(enums.Operation.ACTIVATE), result_status=contents.ResultStatus(enums.ResultStatus.SUCCESS),
+                                                    result_reason=contents.ResultReason(enums.ResultReason.GENERAL_FAILURE), result_message=contents.ResultMessage('done'),
+                                                    response_payload=payloads.ActivateResponsePayload(attributes.UniqueIdentifier('2'))),
                          messages.ResponseBatchItem(result_status=contents.ResultStatus(enums.ResultStatus.OPERATION_FAILED),
                                                     result_reason=contents.ResultReason(enums.ResultReason.ITEM_NOT_FOUND), result_message=contents.ResultMessage(''))])),
-            [v], 'ResponseMessage(Destroy success + failure with empty message) under version %d' % v))
+            [v], 'ResponseMessage(Destroy success + Activate success carrying a reason and a message + failure with empty message) under version %d' % v))
 
     n_built = 0
     for entry in out:
+        if oracle.budget.stop('the constructed objects'):
+            break
         name, thunk, versions, how = entry[:4]
         must = len(entry) > 4 and entry[4]
         try:
@@ -984,6 +1073,16 @@ def constructed_objects(ctx, oracle):
             oracle.constructed(name, x, v, must_encode=must, other_versions=ov, how=how)
     ctx.cov['constructed_objects'] = {'builders': len(out), 'built': n_built,
                                       'classes': sorted({e[0] for e in out})}
+
+
+def budget_verdict(ctx, oracle):
+    """Generation that had to be cut short for lack of time, without any finding, is not a pass: part of the input space
+    this check claims to cover was not visited."""
+    st = oracle.budget.stopped
+    if st and st.startswith('time budget') and not ctx.violations and not ctx.broken:
+        ctx.broken.append({'kind': 'correspondence', 'name': 'generation budget',
+                           'detail': 'the generator did not finish: %s; the implementation has become much slower or its encodings much '
+                                     'larger than on the reference tree (no failing input was identified)' % st, 'candidates': []})
 
 
 # ------------------------------------------------------------------ run
@@ -1014,6 +1113,7 @@ def run(ctx):
     for i in bad[:20]:
         ctx.disagreement('prims', {'case': pmeta[i], 'coq': pcases[i][:400]})
 
+    oracle.take_baseline()
     probes(ctx, oracle)
     constructed_objects(ctx, oracle)
 
@@ -1031,9 +1131,22 @@ def run(ctx):
                       'From Coq Require Import ZArith String List.\nImport ListNotations.\nOpen Scope Z_scope.\nNotation length := List.length.\n')
             ctx.cov['translator_partial'] = {'untranslatable': t['unlisted_errors']}
             ctx.log('translator refused %d class(es); continuing with a partial environment of %d classes' % (len(t['unlisted_errors']), len(doc['classes'])))
+            # The classes that just dropped out get no model this run.  Drive them through the direct oracle with values
+            # generated from the LAST GOOD schemas.json (still in coq/gen: regen does not overwrite on failure): the schema
+            # only steers the generator here, nothing is compared with it.
+            try:
+                stale = load_schema()
+                lost = {c['name'] for c in stale['classes']} - {c['name'] for c in doc['classes']}
+                if lost:
+                    ctx.log('oracle-only generation from the last good schema for: %s' % ', '.join(sorted(lost)))
+                    _c, _m, lost_stats = struct_cases(ctx, stale, oracle, only=lost)
+                    ctx.cov['oracle_only_from_last_good_schema'] = lost_stats
+            except Exception as e:
+                ctx.log('no usable last good schema: %s' % e)
         except Exception as e:
             ctx.log('no partial environment either: %s' % e)
             harvested_oracle(ctx, oracle, set())
+            budget_verdict(ctx, oracle)
             return
     else:
         doc = load_schema()
@@ -1079,6 +1192,7 @@ def run(ctx):
     # --- all classes, including the hand-modelled ones: harvested unit-test encodings through the real classes only
     harvested_oracle(ctx, oracle, t_classes)
     ctx.cov['oracle_objects_checked'] = oracle.n
+    budget_verdict(ctx, oracle)
     ctx.cov['trusted_extra'] = [
         'translate/gen_schemas.py (ast walk of read()/write(); constructor expressions evaluated in the defining module)',
         'harness/schemagen.py encoder and generator; harness printers (vlib.coqprint)',
@@ -1099,6 +1213,7 @@ def replay(ctx, payload):
         print('replay: nothing replayable in this file (class %r, version %r)' % (cname, v))
         return 2
     oracle = Oracle(ctx)
+    oracle.take_baseline()          # two-step findings: what fresh default instances encode to BEFORE the recorded input is decoded
     rc = 0
     for h in hexes:
         try:
